@@ -43,11 +43,30 @@ func expectedPrint(root ast.Vertex) (string, string) {
 	}
 	sort.SliceStable(ts, func(i, j int) bool { return ts[i].s < ts[j].s })
 	var b strings.Builder
+	// every piece of text the tree carries (a token, a free-floating token) is a piece of the source and is
+	// carried once: in offset order of the tokens the pieces' offsets strictly increase
+	last := -1
 	for _, x := range ts {
 		for _, ff := range x.t.FreeFloating {
 			b.Write(ff.Value)
+			if ff.Position != nil && len(ff.Value) > 0 {
+				if ff.Position.StartPos < last && dup == "" {
+					dup = fmt.Sprintf("free-floating text %q (offsets %d-%d) is attached a second time or out of source order (token id %d at %d)", clip(string(ff.Value), 20), ff.Position.StartPos, ff.Position.EndPos, int(x.t.ID), x.s)
+				}
+				if ff.Position.EndPos > last {
+					last = ff.Position.EndPos
+				}
+			}
 		}
 		b.Write(x.t.Value)
+		if x.t.Position != nil && len(x.t.Value) > 0 {
+			if x.t.Position.StartPos < last && dup == "" {
+				dup = fmt.Sprintf("token id %d %q (offsets %d-%d) overlaps text already carried by the tree", int(x.t.ID), clip(string(x.t.Value), 20), x.t.Position.StartPos, x.t.Position.EndPos)
+			}
+			if x.t.Position.EndPos > last {
+				last = x.t.Position.EndPos
+			}
+		}
 	}
 	return b.String(), dup
 }
